@@ -11,9 +11,9 @@ INFO = {
         'code != closed form unsatisfiable; on the unchanged tree the terms are syntactically identical after normalisation. sat models are '
         'replayed in floats against an mpmath evaluation (50 digits) of the closed form at 1e-9 absolute.'),
     'bounds': {
-        'quick': 'five models x three operations x shapes (1,1),(2,1),(2,2),(1,1,1),(1,2,1),(1,1,1,1),(3,2),(2,2,2),(1,2,1,2),(1,1,1,1,1)',
+        'quick': 'five models x three operations x shapes (1,1),(2,1),(2,2),(1,1,1),(1,2,1),(1,1,1,1),(3,2),(2,2,2),(1,2,1,2),(1,1,1,1,1), eight teams of eight',
         'quick+': 'aliasing cells: the same team list entered as first and last team for (1,1), (2,1,2), (1,1,1,1), the latter also with one rating object in two teams',
-        'thorough': '+ (8,8), 6x1, 8x1, (3,1,4,1,5), (2,3,2,3,2,3), (8,1,8)',
+        'thorough': '+ (8,8), 6x1, 7x1, 8x1, (3,1,4,1,5), (2,3,2,3,2,3), (8,1,8), (1,2,...,8), (8,7,...,2)',
     },
     'outside': ['IEEE rounding of the evaluation (the 1e-9 absolute figure is only evaluated in replays)', 'shapes not listed (the code is shape-generic; listed shapes reach 8 teams and 8 players)'],
     'stubs': ['predict_rank jobs: _rank_data (module global of the model file) replaced by a constant ranking - the rank assignment is decided in C11; the probabilities under test are computed before it'],
@@ -21,8 +21,8 @@ INFO = {
     'assumptions': ['real-number semantics (mode R)', 'Phi^-1((1+1/N)/2) is the library\'s float value in both code and closed form'],
 }
 
-SHAPES_Q = [(1, 1), (2, 1), (2, 2), (1, 1, 1), (1, 2, 1), (1, 1, 1, 1), (3, 2), (2, 2, 2), (1, 2, 1, 2), (1, 1, 1, 1, 1)]
-SHAPES_T = SHAPES_Q + [(8, 8), (1,) * 6, (1,) * 8, (3, 1, 4, 1, 5), (2, 3, 2, 3, 2, 3), (8, 1, 8)]
+SHAPES_Q = [(1, 1), (2, 1), (2, 2), (1, 1, 1), (1, 2, 1), (1, 1, 1, 1), (3, 2), (2, 2, 2), (1, 2, 1, 2), (1, 1, 1, 1, 1), (8,) * 8]
+SHAPES_T = SHAPES_Q + [(8, 8), (1,) * 6, (1,) * 7, (1,) * 8, (3, 1, 4, 1, 5), (2, 3, 2, 3, 2, 3), (8, 1, 8), (1, 2, 3, 4, 5, 6, 7, 8), (8, 7, 6, 5, 4, 3, 2)]
 
 
 def jobs(tier):
